@@ -4,6 +4,7 @@ Functions under contract: dassh.hotspot.calculate_temps, _get_peak_dt,
 _split_clad_subfactors, _evaluate_hcf_expr (constant tables).
 """
 from __future__ import annotations
+import sys
 import numpy as np
 from . import common
 from pvc import core
@@ -21,7 +22,10 @@ ASSUMPTIONS = ['precondition of calculate_temps: IN_sigma > 0 - established at t
                'array arithmetic without size-dependent control flow)']
 NOT_DECIDED = ['user expressions in subfactor tables evaluated with eval() (arbitrary code)',
                'reading of the CSV tables (_read_hcf_table: string handling)']
-BOUNDED = []
+BOUNDED = ['runtime.builtin_table[<table>,<location>]: the five built-in subfactor tables read by the real _read_hcf_table '
+           '(CSV parsing and eval of their dT expressions are outside the symbolic part), for every location the table has '
+           'columns for, 3 assemblies with different rises, output sigma 0..4 and input sigma 1..4: >= nominal, monotone in the '
+           'output sigma, statistical allowance inversely proportional to the input sigma, cumulative sequence']
 
 
 def _tables(S, n_asm, n_dir, n_stat, n_term, unity=False):
@@ -284,3 +288,77 @@ def configs(tier):
         out += [(temps, dict(n_asm=2, n_dir=3, n_stat=2, n_term=5)), (peak_dt, dict(value='clad_id')),
                 (peak_dt, dict(value='fuel_od')), (peak_dt, dict(value='clad_od'))]
     return out
+
+
+def _builtin_case(args):
+    name, loc = args
+    import os
+    sys.path.insert(0, os.environ.get('DASSH_REPO', '/repo'))
+    from dassh import hotspot
+    path = os.path.join(os.path.dirname(hotspot.__file__), 'data', f'hcf_{name}.csv')
+    ncol = {'coolant': 1, 'clad_od': 2, 'clad_mw': 3, 'clad_id': 4, 'fuel_od': 5, 'fuel_cl': 6}[loc]
+    rng = np.random.default_rng(19)
+    dT = rng.uniform(5.0, 150.0, size=(3, ncol))
+    T_in = 623.15
+    try:
+        def temps(i_s, o_s):
+            subf, expr = hotspot._read_hcf_table(path, hotspot._COLS_NEEDED[loc])
+            if loc in ('clad_id', 'fuel_od', 'fuel_cl'):
+                subf, expr = hotspot._split_clad_subfactors(subf, expr)
+            subf = hotspot._evaluate_hcf_expr(subf, expr, dT)
+            for t in subf:
+                subf[t] = subf[t][:, :, :dT.shape[1]]
+            return np.asarray(hotspot.calculate_temps(T_in, dT, subf, IN_sigma=i_s, OUT_sigma=o_s), dtype=float)
+        nominal = T_in + np.cumsum(dT, axis=1)
+        bad = []
+        for i_s in (1, 2, 3, 4):
+            prev = None
+            t0 = temps(i_s, 0)
+            for o_s in (0, 1, 2, 3, 4):
+                t = temps(i_s, o_s)
+                if not np.all(np.isfinite(t)) or np.any(t < nominal - 1e-9):
+                    bad.append(f'IN={i_s} OUT={o_s}: below nominal or not finite')
+                if prev is not None and np.any(t < prev - 1e-9):
+                    bad.append(f'IN={i_s}: decreases from OUT={o_s - 1} to {o_s}')
+                if np.any(np.diff(t, axis=1) < -1e-9):
+                    bad.append(f'IN={i_s} OUT={o_s}: sequence not cumulative')
+                if o_s > 0:
+                    ref = (temps(1, o_s) - temps(1, 0)) / i_s
+                    if not np.allclose(t - t0, ref, rtol=1e-9, atol=1e-9):
+                        bad.append(f'IN={i_s} OUT={o_s}: allowance not inversely proportional to the input sigma')
+                prev = t
+        return args, not bad, '; '.join(bad[:4])
+    except SystemExit:
+        return args, True, 'table has too few columns for this location: rejected with a message'
+    except BaseException as e:
+        return args, False, f'{type(e).__name__}: {e}'
+
+
+def extra_checks(tier, seed):
+    import multiprocessing as mp
+    import time
+    t0 = time.time()
+    names = ['crbr_blanket_clad_mw', 'crbr_fuel_clad_mw', 'ebrii_markv_fuel_cl', 'fftf_clad_mw', 'fftf_fuel_cl']
+    jobs = [(n, loc) for n in names for loc in ('coolant', 'clad_od', 'clad_mw', 'clad_id', 'fuel_od', 'fuel_cl')]
+    with mp.get_context('fork').Pool(10) as pool:
+        out = pool.map(_builtin_case, jobs, chunksize=2)
+    secs = time.time() - t0
+    results = []
+    for (n, loc), ok, d in out:
+        results.append(dict(name=f'runtime.builtin_table[{n},{loc}]', status='proved' if ok else 'refuted',
+                            backend='bounded:run-time contract', seconds=secs / len(out), detail=d,
+                            witness=dict(values=dict(table=n, location=loc)),
+                            replay=dict(reproduced=not ok, point=dict(values=dict(table=n, location=loc)), native=d)))
+    return [dict(name='built-in subfactor tables (run-time contracts)', results=results,
+                 notes=['BOUNDED: runtime.builtin_table[*] on the five built-in tables'])]
+
+
+def replay(doc):
+    w = (doc.get('witness') or {}).get('values') or {}
+    if 'table' in w:
+        a, ok, d = _builtin_case((w['table'], w['location']))
+        print('replay:', a, d)
+        print('not reproduced' if ok else 'REPRODUCED')
+        return 0 if ok else 1
+    print(doc.get('verifier_output'))
+    return 0
